@@ -172,6 +172,33 @@ def case_irreducible(ctx, cfg):
                 if not isinstance(e, NotReducible):
                     ctx.fail(f"components:irreducible:{'no-raise' if e is None else type(e).__name__}", "components", {"quadric": name, "rank": rk}, "NotReducible", e if e is not None else [x.array for x in comp])
                     return
+        # collections: a reducible member next to an irreducible one must not make the irreducible one "split"
+        red = [(nm, A) for nm, A in QUADRICS3 if X.irank([list(r) for r in A]) == 2]
+        irr = [(nm, A) for nm, A in QUADRICS3 if X.irank([list(r) for r in A]) >= 3]
+        if len(red) >= 2:
+            QC = G.QuadricCollection(np.array([A for _, A in red], dtype=float))
+            comp, e = ctx.call(lambda: QC.components)
+            ctx.trace(len(red))
+            ok = e is None and len(comp) == 2
+            if ok:
+                for i, (_, A) in enumerate(red):
+                    a, b = np.asarray(comp[0].array)[i], np.asarray(comp[1].array)[i]
+                    if not proj_eq(np.outer(a, b) + np.outer(b, a), np.array(A, dtype=float), 1e-8):
+                        ok = False
+            if not ok:
+                ctx.fail("components:collection-of-plane-pairs", "components", {"quadrics": [nm for nm, _ in red]}, "the plane pairs", e if e is not None else [x.array for x in comp])
+                return
+        for nm, A in irr:
+            for pos in ("first", "last", "middle"):
+                mats = [B for _, B in red[:2]]
+                mats.insert({"first": 0, "last": len(mats), "middle": 1}[pos], A)
+                QC = G.QuadricCollection(np.array(mats, dtype=float))
+                comp, e = ctx.call(lambda: QC.components)
+                ctx.trace()
+                ctx.state((what, "mixed", nm, pos))
+                if not isinstance(e, NotReducible):
+                    ctx.fail(f"components:mixed-collection:{'no-raise' if e is None else type(e).__name__}", "components", {"irreducible_member": nm, "position": pos, "others": [n for n, _ in red[:2]]}, "NotReducible", e if e is not None else [x.array for x in comp])
+                    return
         for k in range(5):
             from checks.c14 import class_quadric
 
